@@ -658,11 +658,11 @@ func applyStep(root expr.DataType, s Step) {
 			att.Meta = expr.MetaExpr{}
 		}
 		att.Meta[metaName] = []string{"n2"}
-	case "req":
-		ensureValidation(attrAt(dt, s.Idx)).AddRequired("z")
+	case "req": // the two sides add different names (like "meta"), so a shared backing array shows
+		ensureValidation(attrAt(dt, s.Idx)).AddRequired(map[string]string{"orig": "o1", "copy": "c1"}[s.Side])
 	case "vmerge":
 		one := 1
-		ensureValidation(attrAt(dt, s.Idx)).Merge(&expr.ValidationExpr{MinLength: &one, Required: []string{"y"}})
+		ensureValidation(attrAt(dt, s.Idx)).Merge(&expr.ValidationExpr{MinLength: &one, Required: []string{map[string]string{"orig": "o2", "copy": "c2"}[s.Side]}})
 	case "setattr":
 		dt.(expr.UserType).SetAttribute(fresh())
 	case "rename":
